@@ -12,7 +12,13 @@ func init() {
 		Name:     "C18",
 		Property: "C18",
 		Gen:      genC18,
-		Oracles:  []func(o *Outcome) []Violation{oracleC18, livenessOracle("C18"), servedOracle("C18")},
+		Oracles: []func(o *Outcome) []Violation{
+			func(o *Outcome) []Violation {
+				if len(o.Plan.StoreFaults) > 0 {
+					return relabel("C18", oracleC10Purge)(o) // purges with failing deletes: memory must still be purged
+				}
+				return oracleC18(o)
+			}, livenessOracle("C18"), servedOracle("C18")},
 		NonTrivial: func(o *Outcome) bool {
 			return o.Hist.Probes["request-after-purge-of-present-entry"] > 0
 		},
@@ -92,6 +98,15 @@ func genC18(g *Gen) *Plan {
 			}
 		default:
 			p.Ops = append(p.Ops, sleepOp(pick(g, 300, 1000, 3000), g.p(0.5)))
+		}
+	}
+	if s1 != "" && !unnamed && g.p(0.4) {
+		// some store deletes fail: the persisted copy may stay (stated relaxation), memory must be purged
+		p.StoreFaults = make([]string, 150)
+		for i := range p.StoreFaults {
+			if g.p(0.3) {
+				p.StoreFaults[i] = "delerr"
+			}
 		}
 	}
 	if unnamed && (s1 != "" || s2 != "") {
